@@ -7,6 +7,7 @@ import (
 	"crypto/elliptic"
 	"fmt"
 	"math/big"
+	"strings"
 
 	"github.com/emmansun/gmsm/sm2/sm2ec"
 	"github.com/emmansun/gmsm/verifhook"
@@ -25,6 +26,7 @@ func init() {
 	reg.Register("c05.order", "C05", order)
 	reg.Register("c05.decode", "C05", decode)
 	reg.Register("c05.keys", "C05", keys)
+	reg.Register("c05.reuse", "C05", reuse)
 }
 
 // extCurve is the method set of the concrete curve type behind sm2ec.P256().
@@ -145,11 +147,24 @@ func (e *env) checkVar(c *mon.Case, q *npoint, k *big.Int, b []byte, want ec.Poi
 	if !bytes.Equal(in, b) || px.Cmp(wx) != 0 || py.Cmp(wy) != 0 {
 		c.Fail("mismatch", "ScalarMult modified its arguments")
 	}
-	if len(b) != 32 {
-		return
-	}
 	hp := hookPoint(c, q.p)
 	if hp == nil {
+		return
+	}
+	if len(b) != 32 {
+		// documented: returns an error and leaves the receiver unchanged
+		var r *verifhook.SM2P256Point
+		var err error
+		recv := verifhook.NewSM2P256Point()
+		if c.Call("point.ScalarMult", func() { r, err = recv.ScalarMult(hp, in) }) {
+			if err == nil || r != nil {
+				c.Fail("accept", "point.ScalarMult accepted a %d-byte scalar", len(b))
+			} else {
+				eqHook(c, "receiver after refused ScalarMult", recv, ec.Infinity)
+				eqHook(c, "operand after refused ScalarMult", hp, q.p)
+			}
+			c.Event("wrong_length_refused", 1)
+		}
 		return
 	}
 	var r *verifhook.SM2P256Point
@@ -471,6 +486,10 @@ func combined(x *mon.Ctx) {
 					continue
 				}
 				if sparse && ki > 1 {
+					continue
+				}
+				// constructed points (structured intermediate values of the decoder): one case per relation
+				if strings.HasPrefix(q.kind, "poly-") && (ki == 1) != (rel == "s1=0") {
 					continue
 				}
 				for rep := 0; rep < reps; rep++ {
